@@ -103,6 +103,20 @@ def softClipHead (cigar : List CigarOp) : Int :=
 /-- Python slice `seq[a:b]` for `0 ≤ a`, any `b` -/
 def slice {α} (l : List α) (a b : Int) : List α := (l.drop a.toNat).take (b.toNat - a.toNat)
 
+/-- the part shared by `find_polya_tail` and `find_polyt_head` between the slicing of the sequence and the
+    projection: `pos = self.find_polya(sequence_to_check)` followed by
+    `if check_entire_tail and pos != -1: ... if entire_tail.count('A') < len(entire_tail) * min_polya_fraction: pos = -1`.
+    `region` = the checked sequence as flags "base is 'A'"; `none` = -1 -/
+def tailScan (window num den : Nat) (checkEntire : Bool) (region : List Bool) : Option Nat :=
+  match findPolya window (window * num / den) region with
+  | none => none
+  | some p =>
+    if checkEntire then
+      let tail := region.drop p
+      -- `entire_tail.count('A') < len(entire_tail) * min_polya_fraction`
+      if countTrue tail * den < tail.length * num then none else some p
+    else some p
+
 /-- `find_polya_tail(alignment, from_pos, to_pos, check_entire_tail)`; inner `none` = -1 is rendered as `-1` -/
 def findPolyaTail (window num den : Nat) (refStart : Int) (cigar : List CigarOp) (seq : List Char)
     (fromPos toPos : Int) (checkEntire : Bool) : Option Int :=
@@ -117,17 +131,7 @@ def findPolyaTail (window num den : Nat) (refStart : Int) (cigar : List CigarOp)
       let start := max 0 (mappedEnd - fromPos)
       let stop := min n (mappedEnd + toPos + 1)
       let region := (slice seq start stop).map (fun c => upperChar c == 'A')
-      let minCount := window * num / den
-      let pos0 := findPolya window minCount region
-      let pos1 := match pos0 with
-        | none => none
-        | some p =>
-          if checkEntire then
-            let tail := region.drop p
-            -- `entire_tail.count('A') < len(entire_tail) * min_polya_fraction`
-            if countTrue tail * den < tail.length * num then none else some p
-          else some p
-      match pos1 with
+      match tailScan window num den checkEntire region with
       | none => some (-1)
       | some p =>
         let pos : Int := start + p
@@ -152,16 +156,7 @@ def findPolytHead (window num den : Nat) (refStart : Int) (cigar : List CigarOp)
       let stop := min n (mappedStart + fromPos + 1)
       -- reverse complement, then look for 'A'  =  reverse, then look for 'T'
       let region := ((slice seq start stop).reverse).map (fun c => upperChar c == 'T')
-      let minCount := window * num / den
-      let pos0 := findPolya window minCount region
-      let pos1 := match pos0 with
-        | none => none
-        | some p =>
-          if checkEntire then
-            let tail := region.drop p
-            if countTrue tail * den < tail.length * num then none else some p
-          else some p
-      match pos1 with
+      match tailScan window num den checkEntire region with
       | none => some (-1)
       | some p =>
         let pos : Int := stop - p - 1
